@@ -128,9 +128,40 @@ def index_arithmetic(chk, tier):
             chk.count("index-arithmetic-trees")
 
 
+def bounds_tree_tie(chk, tier, r):
+    """tie of the hypothesis `Arr.Holds` of C03_array_traversal: the rows of the real `bounds_tree` (NaN row = absent page) are the boxes
+    of the sub-trees of the page tree over the implementation's own sorted rows, in heap order"""
+    from spatialpandas.spatialindex import HilbertRtree
+    for k in range(60 if tier == "quick" else 600):
+        d = r.choice((1, 2, 2, 3))
+        n = r.choice((1, 2, 3, 4, 5, 7, 8, 9, 16, 17, 33))
+        ps = r.choice((1, 2, 3, 4, 512))
+        rows = []
+        for _ in range(n):
+            lo = [r.randint(0, 9) for _ in range(d)]
+            rows.append(lo + [x + r.choice((0, 1, 3)) for x in lo])
+        if r.random() < 0.3:
+            rows[r.randrange(n)] = [NAN] * (2 * d)
+        rt = HilbertRtree(np.asarray(rows, dtype=np.float64).reshape(n, 2 * d), p=r.choice((1, 5, 10)), page_size=ps)
+        keys = [int(x) for x in rt._keys]
+        sb = np.asarray(rt._sorted_bounds)
+        if not keys:
+            continue
+        srt = "[ " + " ".join("[ %d %s ]" % (kk, " ".join(str(int(v)) for v in sb[i])) for i, kk in enumerate(keys)) + " ]"
+        model = untok(drive([f"btree {d} {ps} {srt}"])[0])
+        impl = [None if np.isnan(row[0]) else [int(v) for v in row] for row in np.asarray(rt._bounds_tree)]
+        chk.evaluated(len(impl))
+        if model != impl:
+            chk.tie_broken(f"correspondence C03 bounds_tree (Model/RTreeArr.lean boundsTree vs _build_hilbert_rtree): d={d} page_size={ps} rows={rows} "
+                           f"impl={impl[:6]} model={str(model)[:200]}")
+            return
+        chk.count("bounds_tree-compared")
+
+
 def run_cases(chk, tier):
     r = common.rng(PROP)
     index_arithmetic(chk, tier)
+    bounds_tree_tie(chk, tier, r)
     # d = 1 exhaustive
     vals = (0, 1, 2, 3)
     opts = boxes_1d(vals) + [[NAN, NAN]]
